@@ -331,6 +331,29 @@ fn c06_case(ctx: &Ctx, st: &mut TState, idx: usize, case: &Case, fresh_every: us
         if again.is_empty() { for f in fails.iter_mut() { f.1.push_str(" [history-dependent: a brand-new generator answers correctly]"); } }
         else { fails = again; }
     }
+    // the same questions on a board whose history says "drawn" (clock at 100 / position registered three times):
+    // check, checkmate and the annotations are about the position, not about the history
+    if fails.is_empty() && (idx % 5 == 0 || legal.is_empty() || legal.iter().any(|m| { let n = p.make(m); n.in_check(n.turn) && n.legal_moves().is_empty() })) {
+        let mut hb = to_engine(p);
+        if idx % 2 == 0 { hb.push_halfmove_clock(100); st.local.inc("positions_re_asked_with_half_move_clock_100"); } else { for _ in 0..3 { hb.count_current_position(); } st.local.inc("positions_re_asked_after_three_registrations"); }
+        let turn = ecol(p.turn);
+        let in_check = p.in_check(p.turn);
+        let g = st.used_gen();
+        let chk = evaluate::player_is_in_check(&hb, g, turn);
+        let mate = evaluate::player_is_in_checkmate(&mut hb, g, turn);
+        let mut hf: Vec<(String, String)> = vec![];
+        if chk != in_check { hf.push(("c06:in-check:history-dependent".into(), format!("player_is_in_check = {} on a board with a drawn-by-history state", chk))); }
+        if mate != (in_check && legal.is_empty()) { hf.push(("c06:checkmate-verdict:history-dependent".into(), format!("player_is_in_checkmate = {} on a board with a drawn-by-history state; the position is {}", mate, if legal.is_empty() { if in_check { "checkmate" } else { "stalemate" } } else { "not terminal" }))); }
+        let ann = g.generate_moves_and_lazily_update_chess_move_effects(&mut hb, turn);
+        for em in ann.iter() {
+            if let Some(rm) = legal.iter().find(|m| rkey(m) == ekey(em)) {
+                let n = p.make(rm);
+                let want = if n.in_check(n.turn) { if n.legal_moves().is_empty() { ChessMoveEffect::Checkmate } else { ChessMoveEffect::Check } } else { ChessMoveEffect::None };
+                if em.effect() != want { hf.push(("c06:annotation:history-dependent".into(), format!("move {} annotated {:?} on a board with a drawn-by-history state; the position it produces says {:?}", p.uci(rm), em.effect(), want))); break; }
+            }
+        }
+        fails.extend(hf);
+    }
     if fresh && idx % (fresh_every * 4) == 0 {
         // the Game-level verdict
         let mut game = Game::from_board(to_engine(p), 0);
@@ -439,6 +462,31 @@ fn c13_case(ctx: &Ctx, st: &mut TState, idx: usize, case: &Case) {
     if idx % 613 == 0 { ctx.sample(json!({"fen": p.to_fen(), "labels": labels.iter().map(|x| x.1.clone()).collect::<Vec<_>>() })); }
 }
 
+fn c13_game_listing(ctx: &Ctx, l: &mut Local, root: &Pos, path: &[Mv]) {
+    let mut game = Game::from_board(to_engine(root), 0);
+    let mut p = root.clone();
+    for i in 0..=path.len() {
+        let legal = p.legal_moves();
+        if legal.is_empty() { break; }
+        let listed = match par::guarded(|| game.enumerated_candidate_moves()) { Ok(x) => x, Err(msg) => { ctx.violation(&format!("c13:panic:{}", par::last_panic_location()), &format!("listing the candidates of {} panicked: {}", p.to_fen(), msg), json!({"root_fen": root.to_fen(), "path": path_str(root, &path[..i])})); return; } };
+        l.inc("listings_through_one_game_compared");
+        let mut got: Vec<(MoveKey, String)> = listed.iter().map(|x| (ekey(&x.0), x.1.clone())).collect(); got.sort();
+        let mut want: Vec<(MoveKey, String)> = legal.iter().map(|m| (rkey(m), p.san(m, &legal))).collect(); want.sort();
+        if got != want {
+            let first = got.iter().find(|x| !want.contains(x)).map(|x| format!("{} {:?}", key_str(&x.0), x.1)).unwrap_or_default();
+            ctx.violation("c13:game-listing-differs", &format!("after {} plies in one game the candidates listed for {} differ from the position's standard labels (e.g. listed {})", i, p.to_fen(), first), json!({"root_fen": root.to_fen(), "path": path_str(root, &path[..i]), "fen": p.to_fen()}));
+            return;
+        }
+        if i == path.len() { break; }
+        let m = &path[i];
+        if matches!(m.kind, Kind::Promo(x) | Kind::PromoCapture(x) if x != Pc::Q) { break; }
+        if !matches!(par::guarded(|| game.apply_chess_move_by_from_to_coordinates(bb(m.from), bb(m.to))), Ok(Ok(_))) { l.inc("game_move_rejected_(C14_business)"); return; }
+        game.board_mut().toggle_turn();
+        p = p.make(m);
+    }
+    l.inc("games_listed_through_one_game");
+}
+
 pub fn c13(o: &Opts) -> i32 {
     let ctx = default_ctx("C13", o, 50.0, 600.0);
     if let Some(path) = &o.replay {
@@ -455,11 +503,27 @@ pub fn c13(o: &Opts) -> i32 {
     let mut seen = HashSet::new();
     for _ in 0..if q { 12000 } else { 200000 } { let prof = *r.pick(&[2usize, 2, 4, 3]); let p = gen::random_setup_profile(&mut r, prof); if seen.insert(p.key()) { cases.push(Case::setup(p, "like-piece-dense-setup")); } }
     shuffle_tail(&mut cases, gen::corpus().len(), o.seed);
-    run_pool(&ctx, &cases, 0.97, c13_case);
+    run_pool(&ctx, &cases, 0.9, c13_case);
+    {
+        let mut gr = Rng::new(o.seed).fork(tag("c13-games"));
+        let mut games: Vec<(Pos, Vec<Mv>)> = vec![];
+        let tri = Pos::from_fen("7k/8/8/8/8/8/8/K7 w - - 0 1").unwrap();
+        if let Ok(path) = parse_path(&tri, &["a1b1", "h8g8", "b1b2", "g8h8", "b2a1"].iter().map(|s| s.to_string()).collect::<Vec<_>>()) { games.push((tri, path)); }
+        let st = Pos::start();
+        if let Ok(path) = parse_path(&st, &["e2e3", "e7e6", "f1e2", "f8e7", "e2d3", "e7f8", "d3f1"].iter().map(|s| s.to_string()).collect::<Vec<_>>()) { games.push((st, path)); }
+        for g in 0..if q { 40 } else { 400 } {
+            let root = match g % 3 { 0 => gen::random_ending(&mut gr), 1 => Pos::start(), _ => gen::random_setup(&mut gr) };
+            let n = 20 + gr.below(40);
+            let path = gen::random_game(&root, &mut gr, if g % 3 == 0 { Policy::Shuffle } else { gen::POLICIES[g % 5] }, n);
+            games.push((root, path));
+        }
+        par::for_each(&games, par::threads(), |_i, (root, path)| { let mut l = Local::default(); c13_game_listing(&ctx, &mut l, root, path); l.flush(&ctx); },
+            |_i, u, msg| ctx.violation(&format!("c13:panic:{}", par::last_panic_location()), &format!("engine panicked: {}", msg), json!({"root_fen": u.0.to_fen()})));
+    }
     ctx.finish(ctx.counter("labels_compared"),
         "pool positions plus set-ups dense in like pieces (2-5 knights/rooks/queens/bishops of one colour, promoted queens, promotion-ready pawns); every label from enumerate_candidate_moves_with_algebraic_notation (every 40th position through Game::enumerated_candidate_moves) is compared with the reference SAN writer and labels must be pairwise distinct. distinct_nontrivial = distinct positions in which two like pieces can legally reach one square",
         &["reference SAN writer follows FIDE C.10 (file, then rank, then square; among legal moves only); no 'e.p.' suffix demanded"],
-        &[("labels_needing_file_(different_file_and_rank)", 100), ("labels_needing_file_(same_rank)", 100), ("labels_needing_rank", 100), ("labels_needing_square", 20)])
+        &[("labels_needing_file_(different_file_and_rank)", 100), ("labels_needing_file_(same_rank)", 100), ("labels_needing_rank", 100), ("labels_needing_square", 20), ("listings_through_one_game_compared", 300)])
 }
 
 // ======================================================================================= C19
@@ -654,6 +718,31 @@ pub fn c18(o: &Opts) -> i32 {
     for _ in 0..if q { 20000 } else { 100000 } { cases.push(Case::setup(gen::random_setup_profile(&mut r, 4), "material-extreme-setup")); }
     for fen in ["7k/8/QQQ5/QQQ5/QQQ5/8/8/K7 w - - 0 1", "k7/8/8/8/8/5qqq/5qqq/K4qqq b - - 0 1", "QQQQQQQQ/Q7/8/8/8/8/k7/7K w - - 0 1", "RNBQKBNR/QQQQQQQQ/8/8/8/8/8/k7 w - - 0 1"] {
         if let Ok(p) = Pos::from_fen(fen) { if p.is_consistent() { cases.push(Case::setup(p, "nine-queens")); } }
+    }
+    // positions evaluated in game order on one thread vs the same positions evaluated on brand-new threads
+    {
+        let mut gr = Rng::new(o.seed).fork(tag("c18-sequence"));
+        for g in 0..if q { 60 } else { 600 } {
+            let root = match g % 3 { 0 => gen::random_setup_profile(&mut gr, 3), 1 => Pos::start(), _ => gen::random_ending(&mut gr) };
+            let path = gen::random_game(&root, &mut gr, Policy::Special, 60);
+            let mut seq: Vec<Pos> = vec![root.clone()];
+            let mut p = root.clone();
+            for m in &path { p = p.make(m); seq.push(p.clone()); }
+            let in_order: Vec<i64> = seq.iter().map(|x| evaluate::board_material_score(&to_engine(x)) as i64).collect();
+            // every 4th position (and every position right after a promotion or a queen capture) on a fresh thread
+            for (i, x) in seq.iter().enumerate() {
+                let phase_change = i > 0 && (matches!(path[i - 1].kind, Kind::Promo(_) | Kind::PromoCapture(_)) || path[i - 1].captured == Some(Pc::Q));
+                if !(phase_change || i % 4 == 0) { continue; }
+                let x2 = x.twin_rot180();
+                let fresh = std::thread::spawn(move || -(evaluate::board_material_score(&to_engine(&x2)) as i64)).join().unwrap_or(i64::MIN);
+                ctx.count("in_sequence_vs_fresh_thread_evaluations", 1);
+                if phase_change { ctx.count("evaluations_right_after_a_promotion_or_queen_capture", 1); }
+                if fresh != in_order[i] {
+                    ctx.violation("c18:static-asymmetry:history-dependent", &format!("static score of {} is {} when evaluated after the preceding positions of its game on the same thread; its colour-swapped rotation evaluated on a brand-new thread scores {} (should be the exact negative)", x.to_fen(), in_order[i], -fresh), json!({"root_fen": root.to_fen(), "path": path_str(&root, &path[..i]), "fen": x.to_fen()}));
+                    break;
+                }
+            }
+        }
     }
     let mut rt = Rng::new(o.seed).fork(tag("c18-terminal"));
     for p in gen::terminal_with_pieces(&mut rt, if q { 150_000 } else { 1_500_000 }, true) { ctx.count("stalemates_where_the_stalemated_side_has_pieces", 1); cases.push(Case::setup(p, "stalemate-with-pieces")); }
